@@ -1,5 +1,7 @@
 """C17 multimethods and visitors: registration histories (E2) + generated static_dispatcher instantiations + visitor subsets (E3)
-+ dispatcher objects as values (E2: dispatch calls, copies, moves, swaps and relocations as operations of the history)."""
++ dispatcher objects as values (E2: dispatch calls, copies, moves, swaps and relocations as operations of the history)
++ module context (E: a plugin shared object with its own copy of the header-only hierarchy, loaded with dlopen)
++ visitor object shapes x histories of accept calls, every history in a fresh process (F)."""
 import itertools
 import os
 import vlib
@@ -7,6 +9,9 @@ import vlib
 LEVEL = "model_checking"
 HERE = os.path.dirname(os.path.abspath(__file__))
 SRC = os.path.join(HERE, "harness.cpp")
+SRC_MOD = os.path.join(HERE, "modules.cpp")
+SRC_VH = os.path.join(HERE, "vishist.cpp")
+HIERS = ["nonconst/default_catch_all", "nonconst/throwing_catch_all", "const/default_catch_all", "const/throwing_catch_all"]
 GEN = os.path.join(vlib.BUILD, "c17gen")
 
 
@@ -36,16 +41,25 @@ def generate():
 
 
 def build(tier="quick"):
-    """four binaries built in parallel: A dispatcher histories, B generated static_dispatcher instantiations, C visitors
-    (thorough: all 512 subsets of the nine handler bases instead of 128), D dispatcher objects as values"""
+    """binaries built in parallel: A dispatcher histories, B generated static_dispatcher instantiations, C visitors
+    (thorough: all 512 subsets of the nine handler bases instead of 128), D dispatcher objects as values,
+    E module context: modules.cpp built twice - the host program (not linked with -rdynamic) and the plugin, a shared object
+    (-fPIC -shared, default visibility) that the host loads with dlopen; both land in the build cache next to each other,
+    F visitor shapes x accept histories (vishist.cpp)"""
     n = generate()
     def one(part, opt):
         defs = ["PART_A=%d" % (part == "A"), "PART_B=%d" % (part == "B"), "PART_C=%d" % (part == "C"), "PART_D=%d" % (part == "D")]
         if part == "C" and tier == "thorough":
             defs.append("VIS_FULL=1")
         return vlib.compile_cxx(SRC, "c17" + part, std="c++14", opt=opt, san="asan", flags=["-I" + GEN], defines=defs)
-    bins = vlib.parallel([lambda: one("A", "-O1"), lambda: one("B", "-O0"), lambda: one("C", "-O0"), lambda: one("D", "-O1")])
-    return {"A": bins[0], "B": bins[1], "C": bins[2], "D": bins[3]}, n
+    def host():
+        return vlib.compile_cxx(SRC_MOD, "c17E", std="c++14", opt="-O1", san="asan", defines=["C17_PLUGIN=0"], libs=["-ldl"])
+    def plugin():
+        return vlib.compile_cxx(SRC_MOD, "c17Eplugin", std="c++14", opt="-O1", san="asan", defines=["C17_PLUGIN=1"], flags=["-fPIC", "-shared"])
+    def vh():
+        return vlib.compile_cxx(SRC_VH, "c17F", std="c++14", opt="-O0", san="asan")
+    bins = vlib.parallel([lambda: one("A", "-O1"), lambda: one("B", "-O0"), lambda: one("C", "-O0"), lambda: one("D", "-O1"), host, plugin, vh])
+    return {"A": bins[0], "B": bins[1], "C": bins[2], "D": bins[3], "E": bins[4], "Eplugin": bins[5], "F": bins[6]}, n
 
 
 def which(args):
@@ -53,13 +67,50 @@ def which(args):
         return "B"
     if "--visitors-only" in args:
         return "C"
+    if "--vis-hist" in args or "--vis-replay" in args:
+        return "F"
     for flag in ("--inst", "--replay"):
         if flag in args and args[args.index(flag) + 1].startswith("val-"):
             return "D"
+        if flag in args and args[args.index(flag) + 1].startswith("mod-"):
+            return "E"
     return "A"
 
 
+def full_args(b, a):
+    """the module part needs the path of the plugin built for this tree (never stored in a replay file)"""
+    return a + ["--plugin", b["Eplugin"]] if which(a) == "E" else a
+
+
+def module_plan(tier):
+    q = tier == "quick"
+    d2, d3, df = ("2", "1", "3") if q else ("3", "2", "4")
+    return [["--inst", "mod-basic1"],
+            ["--inst", "mod-basic2", "--depth", d2], ["--inst", "mod-basic2-static_cast", "--depth", d2], ["--inst", "mod-basic2-extra", "--depth", d2],
+            ["--inst", "mod-basic3", "--depth", d3],
+            ["--inst", "mod-fast1@host"], ["--inst", "mod-fast1@plugin"],
+            ["--inst", "mod-fast2@host", "--depth", df], ["--inst", "mod-fast2@plugin", "--depth", df],
+            ["--inst", "mod-fast2-dynamic_cast@host", "--depth", df], ["--inst", "mod-fast2-dynamic_cast@plugin", "--depth", df],
+            ["--inst", "mod-tables"]]
+
+
+def vishist_plan(tier):
+    """every history of exactly L accept calls over the call alphabet of the pool, each in a fresh process; sharded by first call"""
+    out = []
+    for h in HIERS:
+        for s in range(4):
+            out.append(["--vis-hist", h, "--len", "2", "--pool", "2", "--shard", str(s), "4"])
+        if tier != "quick":
+            for s in range(8):
+                out.append(["--vis-hist", h, "--len", "3", "--pool", "1", "--shard", str(s), "8"])
+    return out
+
+
 def plan(tier):
+    return base_plan(tier) + module_plan(tier) + vishist_plan(tier)
+
+
+def base_plan(tier):
     if tier == "quick":
         return [["--inst", "basic1"], ["--inst", "fast1"],
                 ["--inst", "basic2", "--depth", "4", "--max-states", "30000"], ["--inst", "basic2-static_cast", "--depth", "3"], ["--inst", "fast2", "--depth", "4", "--max-states", "30000"], ["--inst", "fast2-dynamic_cast", "--depth", "3"],
@@ -82,14 +133,27 @@ def plan(tier):
 def run(ctx):
     b, n = build(ctx.tier)
     dl = str(int(max(60, ctx.time_left() - 30)))
-    vlib.parallel([(lambda a=a: ctx.run_harness(b[which(a)], a + ["--deadline", dl], tag="c17")) for a in plan(ctx.tier)])
+    vlib.parallel([(lambda a=a: ctx.run_harness(b[which(a)], full_args(b, a) + ["--deadline", dl], tag="c17")) for a in plan(ctx.tier)])
+    # several harness runs can report the same signature (shards of one hierarchy): keep the report deterministic
+    ctx.viols.sort(key=lambda v: (v["sig"], len(v["msg"]), v["msg"]))
     ctx.stats["generated_static_dispatcher_instantiations"] = n
-    ctx.stats["evaluations"] = ctx.stats.get("transitions", 0) + ctx.stats.get("static_dispatch_cases", 0) + ctx.stats.get("visitor_cases", 0)
+    ctx.stats["evaluations"] = (ctx.stats.get("transitions", 0) + ctx.stats.get("static_dispatch_cases", 0) + ctx.stats.get("visitor_cases", 0)
+                                + ctx.stats.get("module_static_dispatch_cases", 0) + ctx.stats.get("module_visitor_cases", 0) + ctx.stats.get("vis_hist_accept_calls_judged", 0))
     ctx.stats["distinct_nontrivial"] = ctx.stats.get("states", 0)
     ctx.note("part D (dispatcher objects as values): %d states, %d transitions of which %d dispatch operations and %d copy/move/swap/relocation/self-assignment/fresh operations; part C: %d visitor classes, %d accept calls "
              "(%d with the own handler present, %d where only handlers of another flavour exist for the visited type)" % (
                  ctx.stats.get("value_world_states", 0), ctx.stats.get("value_world_transitions", 0), ctx.stats.get("dispatch_transitions", 0), ctx.stats.get("copy_move_swap_relocate_transitions", 0),
                  ctx.stats.get("visitor_classes", 0), ctx.stats.get("visitor_cases", 0), ctx.stats.get("visitor_cases_own_handler_present", 0), ctx.stats.get("visitor_cases_only_foreign_handlers_for_visited_type", 0)))
+    ctx.note("part E (module context, plugin loaded with dlopen): %d states, %d transitions, %d dispatch calls of which %d cross a module boundary (an argument object, the registration and the call site are "
+             "not all in one module; %d of those to registered tuples); static_dispatcher %d cases (%d cross-module), acyclic visitors %d cases (%d cross-module). "
+             "part F (visitor shapes x accept histories): %d hierarchies x %d visitor objects of %d shapes (%d objects with several base_visitor entries, %d entry sub-objects) -> call alphabet %d per hierarchy; "
+             "%d histories (max length %d), each in a fresh process, %d accept calls judged" % (
+                 ctx.stats.get("module_world_states", 0), ctx.stats.get("module_world_transitions", 0), ctx.stats.get("module_dispatch_calls", 0), ctx.stats.get("module_dispatch_calls_crossing_modules", 0),
+                 ctx.stats.get("module_dispatch_calls_crossing_modules_to_registered_tuples", 0), ctx.stats.get("module_static_dispatch_cases", 0), ctx.stats.get("module_static_dispatch_cases_cross_module", 0),
+                 ctx.stats.get("module_visitor_cases", 0), ctx.stats.get("module_visitor_cases_cross_module", 0),
+                 ctx.stats.get("vis_hist_hierarchies", 0), ctx.maxes.get("vis_hist_visitor_objects_per_hierarchy", 0), ctx.maxes.get("vis_hist_shapes", 0), ctx.maxes.get("vis_hist_visitor_objects_with_several_entries", 0),
+                 ctx.maxes.get("vis_hist_entry_subobjects_per_hierarchy", 0), ctx.maxes.get("vis_hist_call_alphabet", 0), ctx.stats.get("vis_hist_histories_each_in_a_fresh_process", 0),
+                 ctx.maxes.get("vis_hist_history_length", 0), ctx.stats.get("vis_hist_accept_calls_judged", 0)))
     ctx.rule = ("(A) BFS over registration/erasure histories of functor_dispatcher over basic_dispatcher (dynamic and static casting) and basic_fast_dispatcher, with 1, 2 and 3 dispatched arguments and with an undispatched "
                 "extra argument: insert<D...>(h) for EVERY type tuple over {A,B,C} and h in {h1,h2}, erase<D...> for every tuple (basic only); every history is replayed on a fresh dispatcher after resetting the "
                 "per-class static indices, so registration order determines the lazily assigned indices and table shapes; after EVERY transition dispatch is called on ALL 3^k argument tuples: registered => exactly that "
@@ -105,6 +169,23 @@ def run(ctx):
                 "destroyed), round trips through a copied/moved temporary, and for S=2 copy assignment, copy construction, move assignment, move construction and swap between the objects and replacement by a fresh D(); "
                 "model: one handler map per object, a copy/move target gets the source's map and is independent afterwards, a moved-from object is only used as an assignment/construction target; after EVERY transition "
                 "every live object dispatches ALL tuples against its own map (same oracle as A). State = per object (moved-from, handler map, trail of the last 1 (thorough 2) dispatched tuples, following copies and moves) + index assignment. "
+                "(E) MODULE CONTEXT: the harness is built twice, as a host program (not linked with -rdynamic) and as a plugin shared object (-fPIC -shared, default visibility) loaded with dlopen(RTLD_NOW|RTLD_LOCAL); "
+                "each module carries its own copy of the header-only hierarchy Shape <- A,B,C, i.e. its own vtables, type_info objects and per-class static indices (checked at start-up: different addresses, equal names; "
+                "otherwise the run is a harness error). BFS over registration/erasure histories of ONE functor_dispatcher over basic_dispatcher (1 argument; 2 arguments with dynamic and static casting and with an "
+                "undispatched extra argument; 3 arguments) in which every insert<tuple>(h1|h2) and erase<tuple> is executed EITHER in the host OR in the plugin (handler ids encode the registering module); after EVERY "
+                "transition dispatch is called for ALL 3^k tuples x ALL 2^k origins of the argument objects (created in the host / in the plugin) x the module executing the dispatch call; expected: exactly the "
+                "single-module result - one handler map keyed by the tuple of types whichever module registered, created or called (the last insert for a tuple wins, an erase from either module removes it), same "
+                "oracle as (A). 1 argument to fixpoint, 2 arguments depth 2 (thorough 3), 3 arguments depth 1 (thorough 2). basic_fast_dispatcher (1 and 2 arguments, static and dynamic casting) in module-homogeneous "
+                "configurations: all registrations executed in module M and all argument objects created in M, M = host and M = plugin, dispatcher object in the host, dispatch called from both modules (depth 3, "
+                "thorough 4; 1 argument to fixpoint). static_dispatcher instantiated in the host and in the plugin (antisymmetric and symmetric over (A,B,C), symmetric over (C,B,A), antisymmetric (A,B)x(B,C)) x 4 "
+                "argument origins x 9 pairs; acyclic visitors {non-const/throwing, const/default} x visitor object created in host/plugin x visited object created in host/plugin x visited class. "
+                "(F) VISITOR OBJECT SHAPES x HISTORIES of accept calls: six shapes of visitor objects per hierarchy - single base_visitor; two parts that each derive from base_visitor (handler base before and after "
+                "it); three parts (one without handlers); two parts sharing one VIRTUAL base_visitor; one virtual + one non-virtual base_visitor; two parts with a VIRTUAL visitor<A> handler base overridden in the "
+                "composite - two objects of each (thorough length-3 run: one), a call = visited class {A,B,C} x visitor object x entry sub-object (the base_visitor reference of one of its parts): 72 calls per hierarchy; "
+                "ALL histories of exactly 2 calls (72^2 per hierarchy; thorough also all 36^3 of length 3 over the one-object pool) x 4 hierarchies, nothing merged, EVERY history in its own process forked from a "
+                "parent that never calls accept (a cache inside accept is hidden static/thread_local state); every call of every history judged: handled => exactly visit(T&) once, running on the "
+                "visitor<T,int,c> base OF THE OBJECT PASSED (address obtained by static_cast from the complete object), on the visited object, returning its value; unhandled (C) => no handler ran and the catch-all "
+                "policy answered; a child that dies is attributed to the call it was executing. "
                 "distinct_nontrivial = dispatcher states")
     ctx.assumptions += [
         "one fast dispatcher per hierarchy (the per-class index is process-global state, reset by the harness before every replay)",
@@ -114,9 +195,15 @@ def run(ctx):
         "(relocated, self-assigned, round-tripped): two fast dispatchers on one hierarchy are outside the quantifier. The trail in the state key is an abstraction of 'what was dispatched recently' chosen by the "
         "harness: hidden state that depends on older dispatches than the trail length can be merged away",
         "(C) for a hierarchy base_visitable<R, c, ...> the handler registered for T is visitor<T, R, c>::visit; visitor<T, R, !c> and visitor<T, R', c> bases of the same visitor object are handlers for other hierarchies",
+        "(E) type identity across modules is identity by name (type_info::operator== / std::type_index / dynamic_cast of libstdc++), which is what the unchanged basic_dispatcher, static_dispatcher and accept_impl use; the "
+        "classes have external linkage and default visibility. basic_fast_dispatcher identifies a class by the static index inside an inline function that XTL_IMPLEMENT_INDEXABLE_CLASS() adds to the USER'S class; a module "
+        "that cannot see the host's symbols has its own copy of that variable (verified: the addresses differ), so 'registered in one module, object from the other' is two different index variables by construction of the "
+        "user's build and not a question about xtl: fast dispatchers are enumerated in module-homogeneous configurations only. The dispatcher object always lives in the host; one plugin; no dlclose",
+        "(F) every handler base is a unique public base of the visitor (an ambiguous or inaccessible visitor<T,R,c> base is not 'the handler registered for T'); histories are bounded at length 2 (thorough 3): hidden "
+        "state that needs three (four) accept calls in one process to show is not reached; one thread; visitor objects are created before the first accept call and never destroyed during a history",
     ]
 
 
 def replay(ctx, rec):
     b, _ = build(ctx.tier)
-    ctx.run_harness(b[which(rec["args"])], rec["args"], tag="c17")
+    ctx.run_harness(b[which(rec["args"])], full_args(b, rec["args"]), tag="c17")
